@@ -231,6 +231,27 @@ fire("C17", "loader hands the raw list out", "loader-fresh-conversion",
 silent("C17", "additional well-formed element",
        ("json", "data/atomic_gauss_params.json", lambda d: d.__setitem__("He", {"coeffs_s": [1.0, 1.0], "alphas_s": [2.0, 0.5]})))
 
+# analytic clause (E8 with an erf generator)
+fire("C17", "s-type potential with the exponent instead of its root inside erf", "P1.poisson-identity/coulomb.coulomb_gaussian_s",
+     ("sub", "coulomb.py", "    np.divide(erf(sqrt_alpha * r), r, out=out, where=r >= _R_ZERO_THRESHOLD)\n    # safe division\n    out[r < _R_ZERO_THRESHOLD] = 2.0 * sqrt_alpha / np.sqrt(np.pi)\n",
+      "    np.divide(erf(alpha * r), r, out=out, where=r >= _R_ZERO_THRESHOLD)\n    # safe division\n    out[r < _R_ZERO_THRESHOLD] = 2.0 * alpha / np.sqrt(np.pi)\n"))
+fire("C17", "s-type small-r constant without the factor 2", "P2.small-r-limit/coulomb.coulomb_gaussian_s",
+     ("sub", "coulomb.py", "    out[r < _R_ZERO_THRESHOLD] = 2.0 * sqrt_alpha / np.sqrt(np.pi)\n",
+      "    out[r < _R_ZERO_THRESHOLD] = sqrt_alpha / np.sqrt(np.pi)\n"))
+fire("C17", "unnormalised s-type prefactor with the wrong power", "P1.poisson-identity/coulomb.coulomb_gaussian_s/unnormalized",
+     ("sub", "coulomb.py", "    prefactor = (np.pi / alpha) ** 1.5\n", "    prefactor = (np.pi / alpha) ** 2.5\n"))
+fire("C17", "s-type potential shifted by a constant", "P3.total-charge-at-infinity/coulomb.coulomb_gaussian_s",
+     ("sub", "coulomb.py", "    if normalized:\n        return out\n\n    prefactor = (np.pi / alpha) ** 1.5\n    return prefactor * out\n",
+      "    out = out + sqrt_alpha\n    if normalized:\n        return out\n\n    prefactor = (np.pi / alpha) ** 1.5\n    return prefactor * out\n"))
+silent("C17", "repair of the known finding: the p-type Gaussian term and its r -> 0 value corrected",
+       ("sub", "coulomb.py", "    term2 = (4.0 / 3.0) * (sqrt_alpha / np.sqrt(np.pi)) * np.exp(-alpha * r**2)\n",
+        "    term2 = -(2.0 / 3.0) * (sqrt_alpha / np.sqrt(np.pi)) * np.exp(-alpha * r**2)\n"),
+       ("sub", "coulomb.py", "    out[r < _R_ZERO_THRESHOLD] = (10.0 / 3.0) * (sqrt_alpha / np.sqrt(np.pi))\n",
+        "    out[r < _R_ZERO_THRESHOLD] = (4.0 / 3.0) * (sqrt_alpha / np.sqrt(np.pi))\n"))
+silent("C17", "s-type prefactor spelled pi * sqrt(pi) / (alpha * sqrt(alpha))",
+       ("sub", "coulomb.py", "    prefactor = (np.pi / alpha) ** 1.5\n",
+        "    prefactor = np.pi * np.sqrt(np.pi) / (alpha * sqrt_alpha)\n"))
+
 # ------------------------------------------------------------------------------------------ C03
 fire("C03", "coefficient changed in one copy of the third inverse derivative", "R1.inverse-formulas-agree",
      ("sub", "rtransform.py", "        return (3 * d2(r) ** 2 - d1(r) * d3(r)) / self._d1(r) ** 5\n",
